@@ -336,31 +336,57 @@ def _d5_d6(chk, fb):
     for cls in SCHEMES:
         f = fb.q1(cls + "::updateDerivatives")
         cfg = f.cfg
-        # D6: der slots indexed by the loop variable that indexes variables_
-        for lp in [n for n in walk(f.body) if n["k"] == "ForStmt"]:
+        # D6: der slots indexed by the position of the current variable in variables_
+        loops = e1.natural_loops(cfg)
+        for lp in [n for n in walk(f.body) if n["k"] in ("ForStmt", "CXXForRangeStmt")]:
             body = f.nodes[lp["body"]]
-            sel = None
-            for n in walk(body):
-                if n["k"] == "DeclStmt":
-                    for d in n["decls"]:
-                        if d.get("init") is not None and render(d["init"]).startswith("variables_[") and f.enclosing(n, ("ForStmt",)) is lp:
-                            sel = render(d["init"])[len("variables_["):-1]
-            if sel is None:
+            sel = None          # expression that is the position of the current variable
+            rangefor = False
+            if lp["k"] == "ForStmt":
+                for n in walk(body):
+                    if n["k"] == "DeclStmt":
+                        for d in n["decls"]:
+                            if d.get("init") is not None and render(d["init"]).startswith("variables_[") and f.enclosing(n, ("ForStmt", "CXXForRangeStmt")) is lp:
+                                sel = render(d["init"])[len("variables_["):-1]
+            elif render(f.nodes[lp["rangeinit"]]) == "variables_":
+                rangefor = True
+            if sel is None and not rangefor:
                 continue
             for n in walk(body):
-                if f.enclosing(n, ("ForStmt",)) is not lp:
+                if f.enclosing(n, ("ForStmt", "CXXForRangeStmt")) is not lp:
                     continue
                 if n["k"] == "BinaryOperator" and n["op"] == "=":
                     l = render(kids(n)[0])
                     for arr in ("der1_", "der2_"):
                         if l.startswith(arr + "["):
                             k = l[len(arr) + 1:-1]
-                            if k == sel:
+                            if sel is not None and k == sel:
                                 chk.proved("D6", f.key, "slot-index:" + arr, f.loc(n), "%s[%s] with var = variables_[%s]" % (arr, k, sel))
-                            else:
+                            elif sel is not None:
                                 chk.refuted("D6", f.key, "slot-index:" + arr, f.loc(n),
                                             "derivative of variables_[%s] is stored in slot '%s': the accessor looks slots up by the variable's position in the selection" % (sel, k),
                                             witness={"history": "select {x,y,z}; update only {y}"})
+                            else:
+                                # range-for: k must be a counter advanced exactly once on every path round the loop
+                                kn = strip(kids(strip(kids(n)[0]))[-1]) if False else None
+                                incs = [m for m in walk(f.body) if m["k"] in ("UnaryOperator", "CompoundAssignOperator") and m.get("op") in ("++", "+=") and render(kids(m)[0]) == k]
+                                heads = [h for h, bl in loops.items() if cfg.stmt_block(n) in bl]
+                                head = min(heads, key=lambda h: len(loops[h])) if heads else None
+                                # the natural loop of the range-for itself is the largest loop containing the store that is inside lp
+                                for h in sorted(heads, key=lambda h: -len(loops[h])):
+                                    if all(f.contains(lp, f.nodes[e]) for b_ in loops[h] for e in cfg.blocks[b_]["el"] if e in f.nodes):
+                                        head = h
+                                        break
+                                bl = loops.get(head, set())
+                                incb = {cfg.stmt_block(m) for m in incs} & bl
+                                first = [s_ for s_ in cfg.succ[head] if s_ in bl and s_ != head] if head is not None else []
+                                skip = (not incb) or any(e1.path_exists(cfg, s_, head, avoid_blocks=incb | (set(cfg.blocks) - bl)) for s_ in first if s_ not in incb)
+                                if skip:
+                                    chk.refuted("D6", f.key, "slot-index:" + arr, f.loc(n),
+                                                "slot counter '%s' is not advanced on every iteration over variables_ (a skipped variable does not advance it): results land in another variable's slot" % k,
+                                                witness={"history": "select {x,y,z}; update only {y}"})
+                                else:
+                                    chk.proved("D6", f.key, "slot-index:" + arr, f.loc(n), "counter '%s' advances once per element of variables_" % k)
         # D5
         handlers = [n for n in walk(f.body) if n["k"] == "CXXCatchStmt" and "ConstraintException" in (n.get("caught") or "")]
         first_section = []
